@@ -313,3 +313,52 @@ func (w *World) isExportedEntry(fn *ssa.Function) bool {
 	}
 	return true
 }
+
+// WithPrivateHelpers: fns extended by their anonymous functions and by the
+// library functions all of whose callers (in the call graph) already belong
+// to the set — i.e. helpers that exist only to serve these functions.
+func (w *World) WithPrivateHelpers(fns []*ssa.Function) []*ssa.Function {
+	in := map[*ssa.Function]bool{}
+	var out []*ssa.Function
+	var add func(f *ssa.Function)
+	add = func(f *ssa.Function) {
+		if f == nil || in[f] {
+			return
+		}
+		in[f] = true
+		out = append(out, f)
+		for _, an := range f.AnonFuncs {
+			add(an)
+		}
+	}
+	for _, f := range fns {
+		add(f)
+	}
+	for changed := true; changed; {
+		changed = false
+		for _, f := range w.FuncList {
+			if in[f] || f.Pkg == nil || !w.IsLib[f.Pkg] || f.Parent() != nil {
+				continue
+			}
+			if f.Object() != nil && f.Object().Exported() {
+				continue
+			}
+			node := w.CG.Nodes[f]
+			if node == nil || len(node.In) == 0 {
+				continue
+			}
+			all := true
+			for _, e := range node.In {
+				if !in[e.Caller.Func] {
+					all = false
+					break
+				}
+			}
+			if all {
+				add(f)
+				changed = true
+			}
+		}
+	}
+	return out
+}
